@@ -299,7 +299,7 @@ def run(ctx):
                 scripted([('Start',), ('Sleep',), pev2, ('Wake',), ('Tick',), ('Exit', 0), ('PM', 0), ('Fin', 0), ('Exit', 1),
                           ('PM', 1), ('Fin', 1), ('Tick',), ('Tick',)]), pterms, 'patch_corpus',
                 lambda d: (pev2 if d.patches == 0 else None))
-    npa = 100 if ctx.tier == 'quick' else 700
+    npa = 100 if ctx.tier == "quick" else 500
     for i in range(npa):
         W = SC.gen_workflow(rng, nmax=5)
         out = SC.gen_outcome(rng, W)
